@@ -1,5 +1,5 @@
 (* C13: evaluation of the model on recorded cases (correspondence check). *)
-From CJ Require Import Common.Base C13.Model.
+From CJ Require Import Common.Base C13.Model C13.ModelS C13.ModelR.
 Local Open Scope nat_scope.
 
 Definition pair_eqb (a b : bool * nat) : bool := Bool.eqb (fst a) (fst b) && Nat.eqb (snd a) (snd b).
@@ -91,11 +91,150 @@ Definition step_obs_eqb (a b : nat * list bool) : bool :=
 Definition chk_rwm (n : nat) (script : list (nat * mop)) (observed : list (nat * list bool)) : bool :=
   list_eqb step_obs_eqb (go_run (init_cfg 0 (repeat [] n)) [] script) observed.
 
+(* ---- the selector-object model (ModelS.v) replayed on a script of the real-selector lane ----
+   Threads: requests 0..k-1, then the reloads, then one writer thread per file replacement.
+   A script action launches a thread / hands a request one token (a wrapped selector lets a
+   selection pass only with a token) / starts a new round (everything launched runs to its end,
+   the installed selector is wrapped again).  After every action everything that can move does
+   move, in Go's order (readers queued on the mutex before a queued writer, then launch order).
+   ReloadSubnets installs the bare selector: from then on selections need no token. *)
+Inductive ract := AReq (i : nat) | ARel (i : nat) | ALaunch (t : nat) | ARewrap.
+
+Record rp := mkRP { rp_c : scfg; rp_on : list bool; rp_tok : list nat; rp_wrapped : bool; rp_q : list nat;
+                    rp_inits : list nat }.
+
+Definition snext (c : scfg) (i : nat) : option sop :=
+  match nth_error (sthreads c) i with
+  | Some t => match stodo t with o :: _ => Some o | [] => None end
+  | None => None
+  end.
+
+Definition needs_token (p : rp) (k i : nat) : bool :=
+  rp_wrapped p && Nat.ltb i k && match snext (rp_c p) i with Some (SSel _) => true | _ => false end.
+
+Definition can_move (p : rp) (k i : nat) : bool :=
+  nth i (rp_on p) false && enabled (base (rp_c p)) i &&
+  (negb (needs_token p k i) || Nat.ltb 0 (nth i (rp_tok p) 0)).
+
+Definition is_rlock_next (p : rp) (i : nat) : bool :=
+  match snext (rp_c p) i with Some SRLock => true | _ => false end.
+
+Fixpoint pick (p : rp) (k : nat) (f : nat -> bool) (q : list nat) : option nat :=
+  match q with
+  | [] => None
+  | i :: r => if f i && can_move p k i then Some i else pick p k f r
+  end.
+
+Definition move (p : rp) (k i : nat) : rp :=
+  match sstep (rp_c p) i with
+  | Some c' =>
+    let tok := if needs_token p k i then set_nth i (pred (nth i (rp_tok p) 0)) (rp_tok p) else rp_tok p in
+    let wr := match snext (rp_c p) i with Some SInstall => false | _ => rp_wrapped p end in
+    let q := match snext c' i with None => remove Nat.eq_dec i (rp_q p) | Some _ => rp_q p end in
+    mkRP c' (rp_on p) tok wr q (rp_inits p)
+  | None => p
+  end.
+
+Fixpoint rsettle (fuel : nat) (p : rp) (k : nat) : rp :=
+  match fuel with
+  | O => p
+  | S f =>
+    match (match pick p k (is_rlock_next p) (rp_q p) with Some i => Some i | None => pick p k (fun _ => true) (rp_q p) end) with
+    | Some i => rsettle f (move p k i) k
+    | None => p
+    end
+  end.
+
+Definition installed_set (c : scfg) : nat := nth (inst (st c)) (heap (st c)) 0.
+
+Definition ract_do (p : rp) (k : nat) (a : ract) : rp :=
+  match a with
+  | AReq i | ALaunch i =>
+    rsettle 256 (mkRP (rp_c p) (set_nth i true (rp_on p)) (rp_tok p) (rp_wrapped p) (rp_q p ++ [i]) (rp_inits p)) k
+  | ARel i =>
+    rsettle 256 (mkRP (rp_c p) (rp_on p) (set_nth i (S (nth i (rp_tok p) 0)) (rp_tok p)) (rp_wrapped p) (rp_q p) (rp_inits p)) k
+  | ARewrap =>
+    let p1 := rsettle 512 (mkRP (rp_c p) (rp_on p) (rp_tok p) false (rp_q p) (rp_inits p)) k in
+    mkRP (rp_c p1) (rp_on p1) (map (fun _ => 0) (rp_tok p1)) true (rp_q p1) (rp_inits p1 ++ [installed_set (rp_c p1)])
+  end.
+
+Definition real_traces (reqs : list reqkind) (reloads : list (option nat)) (writes : list (nat * nat)) : list (list sop) :=
+  map sreq reqs ++ map (fun r => match r with Some p => sreload p | None => sreload_fail end) reloads ++
+  map (fun w => [SWrite (fst w) (snd w)]) writes.
+
+(* result: per request the sets its selections found (oldest first), the set installed at the start of
+   every round and at the end, and whether every thread finished *)
+Definition real_replay (reqs : list reqkind) (reloads : list (option nat)) (writes : list (nat * nat)) (script : list ract)
+  : list (list nat) * list nat * nat * bool :=
+  let tr := real_traces reqs reloads writes in
+  let k := length reqs in
+  let p0 := mkRP (sinit 0 0 0 tr) (map (fun _ => false) tr) (map (fun _ => 0) tr) false [] [] in
+  let p := fold_left (fun p a => ract_do p k a) (ARewrap :: script ++ [ARewrap]) p0 in
+  (map (fun i => rev (match nth_error (sthreads (rp_c p)) i with Some t => contents_of t | None => [] end)) (seq 0 k),
+   removelast (rp_inits p), installed_set (rp_c p), all_done (base (rp_c p))).
+
+Definition expected_real (k : reqkind) (sets : list nat) : bool * option nat * option nat :=
+  if req_failed k then (true, None, None)
+  else match k_v4 k, k_v6 k, sets with
+       | true, true, [a; b] => (false, Some a, Some b)
+       | true, false, [a] => (false, Some a, None)
+       | false, true, [b] => (false, None, Some b)
+       | false, false, [] => (false, None, None)
+       | _, _, _ => (true, Some 999, Some 999)
+       end.
+
+(* ---- the reload sequence of main.go (ModelR.v) against the real handler ----
+   an observed answer: client generation, v4, v6, late (answered only after the held handler was
+   released), HTTP 200?, subnet set and generation of the IPv4 / IPv6 phantom, ClientConf generation
+   handed back *)
+Definition pobs := (nat * bool * bool * bool * bool * (option nat * option nat) * (option nat * option nat) * option nat)%type.
+
+Definition pobs_matches (s : rstate) (o : pobs) : bool :=
+  let '(g, v4, v6, late, ok, sets, gens, cc) := o in
+  let '(g', ecc) := front s false g in
+  if mem g' (r_gens s) then
+    ok && onat_eqb (fst sets) (if v4 then Some (r_set s) else None) && onat_eqb (snd sets) (if v6 then Some (r_set s) else None)
+       && onat_eqb (fst gens) (if v4 then Some g' else None) && onat_eqb (snd gens) (if v6 then Some g' else None)
+       && onat_eqb cc ecc
+  else negb ok.
+
+Definition is_late (o : pobs) : bool := let '(_, _, _, late, _, _, _, _) := o in late.
+
+(* the state the registrar is in while the handler performs step h of the pinned order *)
+Fixpoint state_before (h : hstep) (ord : list hstep) (s : rstate) (conf : option nat) (P : pub) : rstate :=
+  match ord with
+  | [] => s
+  | x :: r =>
+    if (match x, h with HParse, HParse | HSubnets, HSubnets | HApi, HApi | HDns, HDns => true | _, _ => false end) then s
+    else let '(s', c') := hexec s conf (x, P) in state_before h r s' c' P
+  end.
+
+Definition state_after (s : rstate) (P : pub) : rstate :=
+  fst (fold_left (fun sc x => hexec (fst sc) (snd sc) (x, P)) pinned_order (s, None)).
+
+Definition mround := (pub * list pobs * list pobs * list pobs)%type.
+
+Fixpoint chk_main (s : rstate) (rounds : list mround) : bool :=
+  match rounds with
+  | [] => true
+  | (P, at_cc, at_sub, after) :: r =>
+    let s_cc := state_before HParse pinned_order s None P in
+    let s_sub := state_before HSubnets pinned_order s None P in
+    let s' := state_after s P in
+    forallb (fun o => pobs_matches s_cc o || (is_late o && pobs_matches s' o)) at_cc &&
+    forallb (fun o => pobs_matches s_sub o || (is_late o && pobs_matches s' o)) at_sub &&
+    forallb (pobs_matches s') after &&
+    chk_main s' r
+  end.
+
 Inductive case :=
 | CDepth (k : reqkind) (sels : list (bool * nat)) (final : nat)
 | CSched (reqs : list reqkind) (m : nat) (nfail : nat) (maxid : nat) (completed : bool)
          (obs : list (bool * option nat * option nat)) (reloads_done : nat) (reload_errs : nat) (final_ver : nat)
-| CRwm (n : nat) (script : list (nat * mop)) (observed : list (nat * list bool)).
+| CRwm (n : nat) (script : list (nat * mop)) (observed : list (nat * list bool))
+| CReal (reqs : list reqkind) (reloads : list (option nat)) (writes : list (nat * nat)) (script : list ract)
+        (obs : list (bool * option nat * option nat)) (inits : list nat) (final : nat)
+| CMain (s0 : rstate) (rounds : list mround).
 
 Fixpoint all2 {A B} (f : A -> B -> bool) (l : list A) (r : list B) : bool :=
   match l, r with
@@ -119,5 +258,11 @@ Definition chk (c : case) : bool :=
     all2 (fun k o => existsb (fun u => outcome_eqb (req_outcome k u) o) (seq 0 (S (if Nat.eqb m 0 then 0 else maxid)))) reqs obs &&
     (if Nat.eqb m 0 then Nat.eqb fv 0 else Nat.leb 1 fv && Nat.leb fv maxid)
   | CRwm n script observed => chk_rwm n script observed
+  | CReal reqs reloads writes script obs inits final =>
+    (* the object model replayed on the script gives exactly the observed sets *)
+    let '(sets, rinits, fin, done) := real_replay reqs reloads writes script in
+    done && all2 (fun ks o => outcome_eqb (expected_real (fst ks) (snd ks)) o) (combine reqs sets) obs &&
+    list_eqb Nat.eqb rinits inits && Nat.eqb fin final
+  | CMain s0 rounds => chk_main s0 rounds
   end.
 
